@@ -195,6 +195,16 @@ def check(case):
                 R = b.ev(rhs[1])
             elif rhs[0] in ("arr", "arr2"):
                 R = np.array(rhs[1], dtype=float)
+                # the same numbers in other memory layouts (deterministic in the data): column-major, a transposed view of a
+                # transposed copy, a negatively strided view - NumPy users hand these over without noticing
+                k_ = (R.size + int(abs(float(R.flat[0])) * 4)) % 3
+                if R.ndim == 2 and k_ == 1:
+                    R = np.asfortranarray(R)
+                elif R.ndim == 2 and k_ == 2:
+                    R = np.ascontiguousarray(R.T).T
+                elif R.ndim == 1 and k_ == 1:
+                    R = np.ascontiguousarray(R[::-1])[::-1]
+                classes.append(f"rhs-layout:{'C' if R.flags['C_CONTIGUOUS'] else 'F' if R.flags['F_CONTIGUOUS'] else 'strided'}")
             else:
                 R = list(rhs[1])
         except Exception as ex:
@@ -301,6 +311,11 @@ def check(case):
             P.subject_to(first <= 100.0)
             P.subject_to(first >= -100.0)
         n_extra = 2
+        # an earlier problem sharing this constraint OBJECT under another column layout of the same width (scenario variant)
+        from harness import models as _models
+        lab = _models.shared_constraint_prelude(P, cons, len(desc))
+        if lab:
+            classes.append(lab)
         try:
             with seams.minimize_capture() as cap:
                 P.solve(method="SLSQP", maxiter=1)
